@@ -88,3 +88,61 @@ func (t *Timer) Reset(d Duration) bool {
 	t.arm(d)
 	return was
 }
+
+// Ticker is the model of time.Ticker: a value is offered on C every d; a tick that finds the
+// one-slot channel full is dropped, as in the real runtime.
+type Ticker struct {
+	C       *mc.Chan[Time]
+	d       Duration
+	vt      *mc.VTimer
+	stopped bool
+}
+
+func (t *Ticker) arm() {
+	c := t.C
+	t.vt = mc.AddTimer(int64(t.d), "Ticker", func() {
+		c.TrySendNow(Now())
+		if !t.stopped {
+			t.arm()
+		}
+	})
+}
+
+func NewTicker(d Duration) *Ticker {
+	if d <= 0 {
+		panic("non-positive interval for NewTicker")
+	}
+	mc.Point("time.NewTicker")
+	t := &Ticker{C: mc.MakeChan[Time](1), d: d}
+	t.arm()
+	return t
+}
+
+func (t *Ticker) Stop() {
+	mc.Point("Ticker.Stop")
+	t.stopped = true
+	t.vt.Stop()
+	if mc.TimerMode() == 1 {
+		t.C.Drain()
+	}
+}
+
+func (t *Ticker) Reset(d Duration) {
+	if d <= 0 {
+		panic("non-positive interval for Ticker.Reset")
+	}
+	mc.Point("Ticker.Reset")
+	t.vt.Stop()
+	if mc.TimerMode() == 1 {
+		t.C.Drain()
+	}
+	t.d, t.stopped = d, false
+	t.arm()
+}
+
+func Tick(d Duration) *mc.Chan[Time] {
+	if d <= 0 {
+		return nil
+	}
+	return NewTicker(d).C
+}
